@@ -346,6 +346,27 @@ theorem hgNumericalG_range (k : Consts K) (h0 : 0 < k.hgEps) (h1 : k.hgEps ≤ k
     · exact lt_of_lt_of_le (by linarith) (le_max_right _ _)
     · exact max_lt (lt_of_le_of_lt (min_le_right _ _) h2) (by linarith)
 
+omit [HasSqrt K] in
+theorem clampUnit_range (x : K) : -1 ≤ clampUnit x ∧ clampUnit x ≤ 1 := by
+  simp only [clampUnit, maxS_eq_max, minS_eq_min]
+  exact ⟨le_max_left _ _, max_le (by norm_num) (min_le_left _ _)⟩
+
+omit [HasSqrt K] in
+theorem clampUnit_id {x : K} (h1 : -1 ≤ x) (h2 : x ≤ 1) : clampUnit x = x := by
+  simp only [clampUnit, maxS_eq_max, minS_eq_min]
+  rw [min_eq_right h2, max_eq_right h1]
+
+omit [HasSqrt K] in
+theorem joinBSDF_foldl_x (bs : List (V3 K)) (acc : V3 K) :
+    (bs.foldl V3.add acc).x = acc.x + (bs.map V3.x).sum := by
+  induction bs generalizing acc with
+  | nil => simp
+  | cons b bs ih => simp only [List.foldl_cons, List.map_cons, List.sum_cons, ih, V3.add]; ring
+
+omit [HasSqrt K] in
+theorem joinBSDF_x (bs : List (V3 K)) : (joinBSDF bs).x = (bs.map V3.x).sum := by
+  simp only [joinBSDF, joinBSDF_foldl_x]; ring
+
 /-! ### binary search and cumulative tables -/
 
 /-- Go's `sort.Search` on a monotone predicate returns the least index where it holds
@@ -481,6 +502,24 @@ theorem selectIdx_spec {ws : List K} (hnn : ∀ w ∈ ws, 0 ≤ w) (hne : ws ≠
         rw [← hf j (by omega)]; simp [h1]
       exact not_le.mp h2
   · omega
+
+omit [HasSqrt K] in
+/-- A part of weight zero is never selected by a positive draw. -/
+theorem selectIdx_weight_pos {ws : List K} (hnn : ∀ w ∈ ws, 0 ≤ w) (hne : ws ≠ []) {u : K}
+    (hu : u * ws.sum ≤ ws.sum) (hpos : 0 < u * ws.sum) :
+    ∃ h : selectIdx ws u < ws.length, 0 < ws[selectIdx ws u] := by
+  obtain ⟨h1, h2, h3⟩ := selectIdx_spec hnn hne hu
+  refine ⟨h1, ?_⟩
+  have hstep := List.sum_take_succ ws (selectIdx ws u) h1
+  rcases Nat.eq_zero_or_pos (selectIdx ws u) with h0 | h0
+  · rw [hstep] at h2
+    simp only [h0, List.take_zero, List.sum_nil, zero_add] at h2
+    simp only [h0]
+    linarith
+  · have := h3 (selectIdx ws u - 1) (by omega)
+    rw [show selectIdx ws u - 1 + 1 = selectIdx ws u by omega] at this
+    rw [hstep] at h2
+    linarith
 
 /-! ### mixtures -/
 
